@@ -138,8 +138,13 @@ def main(argv=None):
     for sysname in pinfo["systems"]:
         if args.systems and sysname not in args.systems.split(","):
             continue
-        system = registry.get_system(sysname)
-        for cfg in system.configs(prop, args.tier, seed):
+        try:
+            system = registry.get_system(sysname)
+            cfgs = list(system.configs(prop, args.tier, seed))
+        except Exception as exc:  # noqa: BLE001 - e.g. the tree under test does not import / cannot construct at all
+            print(f"HARNESS-ERROR property={prop}: cannot set up system {sysname}: {type(exc).__name__}: {exc}")
+            return 2
+        for cfg in cfgs:
             if prop == "C19" and args.tier == "thorough":
                 cfg["twin_depth"] = 99  # queried-vs-untouched twin comparison at every state, not only near the root
             jobs.append([len(jobs), sysname, cfg, [prop], args.tier])
